@@ -259,3 +259,39 @@ func TestVerif_C02_thresholds(t *testing.T) {
 		r.State()
 	}
 }
+
+// The reader decides per line whether the bytes representation can be used (util.ToChars / checkAscii works on
+// 8-byte words). One non-ASCII character at every position of lines of every length 1..36: representation, offsets
+// and completeness must not depend on where in the word the character sits.
+func TestVerif_C02_ascii_detection(t *testing.T) {
+	r := kit.Start("C02", "ascii-detection")
+	if r == nil {
+		t.Skip()
+	}
+	defer r.Finish()
+	Init("default")
+	refInit("default")
+	e := &c02env{r: r, std: util.MakeSlab(100*1024, 2048), tiny: util.MakeSlab(6, 3), scheme: "default"}
+	r.Sample(map[string]any{"text": "abcdefgh" + "é" + "wxyz", "patterns": "the character, its normalised form, an ASCII letter before / after it"})
+	i := 0
+	for _, ch := range []rune{'é', '한', '😀'} {
+		for pre := 0; pre <= 18; pre++ {
+			for post := 0; post <= 18; post++ {
+				i++
+				if !r.Mine(i) {
+					continue
+				}
+				raw := make([]rune, 0, pre+post+1)
+				for k := 0; k < pre; k++ {
+					raw = append(raw, 'a')
+				}
+				raw = append(raw, ch)
+				for k := 0; k < post; k++ {
+					raw = append(raw, 'b')
+				}
+				pats := [][]rune{{ch}, {'a'}, {'b'}, {'a', ch}, {ch, 'b'}, {'e'}}
+				e.text(raw, pats)
+			}
+		}
+	}
+}
